@@ -111,8 +111,8 @@ NayinElement(p) ==
     IN <<Wood, Metal, Water, Fire, Earth>>[v]
 NayinIndex(p) == p \div 2
 (* decade (Xun) 0 Jiazi .. 5 Jiayin and its two void branches *)
-Xun(p) == p \div 10
-VoidBranches(p) == <<Mod(10 - 2 * Xun(p), 12), Mod(11 - 2 * Xun(p), 12)>>
+XunOf(p) == p \div 10
+VoidBranches(p) == <<Mod(10 - 2 * XunOf(p), 12), Mod(11 - 2 * XunOf(p), 12)>>
 
 (* ---- zodiac signs: first day of each sign as month*100+day, sign 0 = Aries ... 11 = Pisces -------------- *)
 SignStart == <<321, 420, 521, 622, 723, 823, 923, 1024, 1123, 1222, 120, 219>>
